@@ -1263,6 +1263,15 @@ func VerdictFresh(c *core.Ctx, rule string) {
 				if isAssign(nd) {
 					return false
 				}
+				allBlank := true
+				for _, l := range x.Lhs {
+					if id, isId := l.(*ast.Ident); !isId || id.Name != "_" {
+						allBlank = false
+					}
+				}
+				if allBlank {
+					return false // `_ = v` uses nothing
+				}
 				for _, r := range x.Rhs {
 					if core.Mentions(info, r, o) {
 						return true
